@@ -38,11 +38,14 @@ Theorem C17_never_hangs :
 Proof. exact run_never_hangs. Qed.
 Print Assumptions C17_never_hangs.
 
-(* the functions the differential driver executes are the ones the theorems are about *)
+(* the functions the differential driver executes (the same container functions with a fuel
+   threaded through the history instead of C18arr's per-operation unary fuel, and accumulators
+   instead of non-tail recursion) compute the observations the theorems are about *)
 Theorem C17_driver_functions :
   forall (hash : N -> N) (predef : list N) (ops : list dop),
     map fst (run_trace hash predef ops) = run hash predef ops /\
-    spec_run_tr predef ops = spec_run predef ops.
+    spec_run_tr predef ops = spec_run predef ops /\
+    fst (start_shape hash predef) = match s_start predef with Some l => size l | None => 0 end.
 Proof. exact driver_functions. Qed.
 Print Assumptions C17_driver_functions.
 
